@@ -121,6 +121,10 @@ const F_IDS: u32 = 2;
 const F_NAMES: u32 = 4;
 const F_SCRIPTS: u32 = 8;
 const F_USES: u32 = 16;
+/// ANM: script counts per entry; MSG: table_len; ECL: timeline count and index patterns
+const F_X1: u32 = 32;
+/// MSG: flags / source order / duplicate script; ECL: timeline targets
+const F_X2: u32 = 64;
 
 #[derive(Debug, Clone, PartialEq)]
 enum IdSpec { Implicit, Lit(i64), Base(i64), Arith(i64, i64), Rel(String, i64) }
@@ -143,7 +147,9 @@ struct AnmScriptL { name: String, number: Option<i32>, marker: u32, uses: Vec<An
 struct AnmEntryL { sprites: Vec<SpriteL>, scripts: Vec<AnmScriptL> }
 
 #[derive(Debug, Clone)]
-struct AnmLayout { game: Game, entries: Vec<AnmEntryL> }
+struct AnmLayout { game: Game, entries: Vec<AnmEntryL>,
+    /// which definition a reference to a multiply defined sprite name resolves to (the documentation is silent: M9 is evaluated both ways)
+    resolve_last: bool }
 
 #[derive(Debug, Clone, PartialEq)]
 enum IdErr { Cycle, Dangling(String), Ambiguous(String) }
@@ -168,7 +174,7 @@ fn gen_anm(ch: &mut Chooser, game: Game, prof: &[u32]) -> AnmLayout {
     for e in 0..ne {
         let order: [usize; 3] = if e == ne - 1 { [1, 0, 2] } else { [0, 1, 2] };
         let avail: Vec<usize> = order.iter().copied().filter(|&k| tots + k <= max_scr).collect();
-        let k = avail[ch.pick_w(avail.len(), c(F_SHAPE))];
+        let k = avail[ch.pick_w(avail.len(), c(F_X1))];
         nscr.push(k); tots += k;
     }
     if tots == 0 { nscr[ne - 1] = 1; tots = 1; }
@@ -210,7 +216,7 @@ fn gen_anm(ch: &mut Chooser, game: Game, prof: &[u32]) -> AnmLayout {
         if q > 0 { alts.push(scripts[0].name.clone()); }
         if tot > 0 { alts.push(snames[0].clone()); }
         let a = ch.pick_w(alts.len(), c(F_SCRIPTS));
-        let number = [None, Some(7), Some(1), Some(-3)][ch.pick_w(4, c(F_SCRIPTS))];
+        let number = [None, Some(7), Some(1), Some(-3)][ch.pick_w(4, c(F_X2))];
         scripts.push(AnmScriptL { name: alts[a].clone(), number, marker: 0x5c00 + q as u32, uses: vec![] });
     }
     // uses
@@ -243,7 +249,7 @@ fn gen_anm(ch: &mut Chooser, game: Game, prof: &[u32]) -> AnmLayout {
         for _ in 0..nscr[e] { ent.scripts.push(scripts[qi].clone()); qi += 1; }
         entries.push(ent);
     }
-    AnmLayout { game, entries }
+    AnmLayout { game, entries, resolve_last: false }
 }
 
 struct AnmOps { mark: u16, sep: u16, n: u16, nn: u16, snn: u16, s: u16, real_n: u16, real_nn: Option<u16> }
@@ -279,9 +285,9 @@ impl AnmLayout {
         r
     }
     fn resolve(&self, ctx: Ctx, name: &str, defs: &[(usize, usize, &SpriteL)], stack: &mut Vec<usize>, memo: &mut Vec<Option<Result<i64, IdErr>>>) -> Result<i64, IdErr> {
-        let sprite = defs.iter().position(|d| d.2.name == name);
+        let sprite = if self.resolve_last { defs.iter().rposition(|d| d.2.name == name) } else { defs.iter().position(|d| d.2.name == name) };
         let script = self.script_defs().iter().position(|d| d.1.name == name);
-        let mut spr = |s: &Self, stack: &mut Vec<usize>, memo: &mut Vec<Option<Result<i64, IdErr>>>| s.eval_id(sprite.unwrap(), defs, stack, memo);
+        let spr = |s: &Self, stack: &mut Vec<usize>, memo: &mut Vec<Option<Result<i64, IdErr>>>| s.eval_id(sprite.unwrap(), defs, stack, memo);
         match (ctx, sprite.is_some(), script) {
             (Ctx::QualSprite, true, _) => spr(self, stack, memo),
             (Ctx::QualSprite, false, _) => Err(IdErr::Dangling(name.into())),
@@ -351,33 +357,8 @@ fn id_text(spec: &IdSpec) -> String {
     }
 }
 
-impl Layout for AnmLayout {
-    fn fam(&self) -> &'static str { "anm" }
-    fn tool(&self) -> Tool { Tool::new(Kind::Anm, self.game) }
-    fn mapfile(&self) -> Option<String> {
-        let o = self.ops();
-        Some(format!("!anmmap\n!ins_signatures\n{} S\n{} S\n{} n\n{} N\n{} SnN\n{} S\n", o.mark, o.sep, o.n, o.nn, o.snn, o.s))
-    }
-    fn render(&self) -> String {
-        let o = self.ops();
-        let mut s = String::new();
-        for u in self.all_uses() { if u.kind == AnmUse::ConstTop { s += &format!("const int KT{} = {};\n", u.uid, u.name); } }
-        for (ei, e) in self.entries.iter().enumerate() {
-            s += &format!("entry {{\n    path: \"e{ei}.png\", has_data: false, img_width: 8, img_height: 8, img_format: 3, memory_priority: 0,\n    sprites: {{\n");
-            for sp in &e.sprites { s += &format!("        {}: {{x: {}.0, y: 0.0, w: 1.0, h: 1.0{}}},\n", sp.name, sp.marker, id_text(&sp.spec)); }
-            s += "    },\n}\n";
-            for sc in &e.scripts {
-                let num = sc.number.map(|n| format!("{n} ")).unwrap_or_default();
-                s += &format!("script {num}{} {{\n    ins_{}({});\n", sc.name, o.mark, sc.marker);
-                for u in &sc.uses { s += &format!("    ins_{}({});\n    {}\n", o.sep, u.uid, self.use_text(u).0); }
-                s += "}\n";
-            }
-        }
-        s += "const int base = 10;\n";
-        for u in self.all_uses() { if u.kind == AnmUse::ConstBottom { s += &format!("const int KB{} = {};\n", u.uid, u.name); } }
-        s
-    }
-    fn verdict(&self) -> Verdict {
+impl AnmLayout {
+    fn verdict_inner(&self) -> Verdict {
         let defs = self.sprite_defs();
         let ids = self.ids();
         let mut errors: Vec<(&'static str, String)> = vec![];
@@ -419,6 +400,47 @@ impl Layout for AnmLayout {
         if let Some((c, k)) = errors.into_iter().next() { return Verdict::Error(c, k); }
         if let Some(u) = unspec.into_iter().next() { return Verdict::Unspecified(u); }
         Verdict::Legal
+    }
+}
+
+impl Layout for AnmLayout {
+    fn fam(&self) -> &'static str { "anm" }
+    fn tool(&self) -> Tool { Tool::new(Kind::Anm, self.game) }
+    fn mapfile(&self) -> Option<String> {
+        let o = self.ops();
+        Some(format!("!anmmap\n!ins_signatures\n{} S\n{} S\n{} n\n{} N\n{} SnN\n{} S\n", o.mark, o.sep, o.n, o.nn, o.snn, o.s))
+    }
+    fn render(&self) -> String {
+        let o = self.ops();
+        let mut s = String::new();
+        for u in self.all_uses() { if u.kind == AnmUse::ConstTop { s += &format!("const int KT{} = {};\n", u.uid, u.name); } }
+        for (ei, e) in self.entries.iter().enumerate() {
+            s += &format!("entry {{\n    path: \"e{ei}.png\", has_data: false, img_width: 8, img_height: 8, img_format: 3, memory_priority: 0,\n    sprites: {{\n");
+            for sp in &e.sprites { s += &format!("        {}: {{x: {}.0, y: 0.0, w: 1.0, h: 1.0{}}},\n", sp.name, sp.marker, id_text(&sp.spec)); }
+            s += "    },\n}\n";
+            for sc in &e.scripts {
+                let num = sc.number.map(|n| format!("{n} ")).unwrap_or_default();
+                s += &format!("script {num}{} {{\n    ins_{}({});\n", sc.name, o.mark, sc.marker);
+                for u in &sc.uses { s += &format!("    ins_{}({});\n    {}\n", o.sep, u.uid, self.use_text(u).0); }
+                s += "}\n";
+            }
+        }
+        s += "const int base = 10;\n";
+        for u in self.all_uses() { if u.kind == AnmUse::ConstBottom { s += &format!("const int KB{} = {};\n", u.uid, u.name); } }
+        s
+    }
+    fn verdict(&self) -> Verdict {
+        if !self.resolve_last {
+            let mut other = self.clone();
+            other.resolve_last = true;
+            let same = self.ids() == other.ids() && self.all_uses().iter().all(|u| self.use_expect(u) == other.use_expect(u));
+            if !same {
+                // conflicts are errors under either reading; anything else depends on an undocumented choice
+                let (a, b) = (self.verdict_inner(), other.verdict_inner());
+                return match (&a, &b) { (Verdict::Error("conflict", _), Verdict::Error("conflict", _)) => a, _ => Verdict::Unspecified("reference-to-multiply-defined-name".into()) };
+            }
+        }
+        self.verdict_inner()
     }
     fn nontrivial(&self) -> bool {
         let defs = self.sprite_defs();
@@ -559,15 +581,15 @@ fn gen_msg(ch: &mut Chooser, game: Game, prof: &[u32]) -> MsgLayout {
     dalts.push(Some(MsgTgt::Script("nosuch".into())));
     let default = dalts[ch.pick_w(dalts.len(), c(F_NAMES))].clone();
     let implicit = table.iter().map(|e| e.0 + 1).max().unwrap_or(0);
-    let (table_len, len_pat) = match ch.pick_w(4, c(F_USES)) {
+    let (table_len, len_pat) = match ch.pick_w(4, c(F_X1)) {
         0 => (None, "implicit"),
         1 => (Some(implicit), "explicit-equal"),
         2 => (Some(implicit + 2), "longer"),
         _ => (Some(implicit.saturating_sub(1)), "shorter"),
     };
-    let flags = ch.pick_w(2, c(F_USES)) == 1;
-    if ch.pick_w(2, c(F_USES)) == 1 { table.reverse(); }
-    let dup_script = ch.pick_w(2, c(F_USES)) == 1;
+    let flags = ch.pick_w(2, c(F_X2)) == 1;
+    if ch.pick_w(2, c(F_X2)) == 1 { table.reverse(); }
+    let dup_script = ch.pick_w(2, c(F_X2)) == 1;
     MsgLayout { game, scripts, meta_pos, table, default, table_len, len_pat, flags, dup_script }
 }
 
@@ -686,13 +708,13 @@ fn gen_ecl(ch: &mut Chooser, game: Game, prof: &[u32]) -> EclLayout {
     let c = |f: u32| if free & f != 0 { 0 } else { 1 };
     let nsub = 1 + ch.pick_w(max_subs, c(F_SHAPE));
     let tl_alts: Vec<usize> = if game == Game::Th06 { vec![1, 0] } else { [1usize, 0, 2, 3].iter().copied().filter(|&k| k <= max_tl).collect() };
-    let ntl = tl_alts[ch.pick_w(tl_alts.len(), c(F_SHAPE))];
+    let ntl = tl_alts[ch.pick_w(tl_alts.len(), c(F_X1))];
     let mut subs: Vec<EclSubL> = (0..nsub).map(|k| EclSubL { name: ECL_NAMES[k].to_string(), marker: 0x70 + k as u32, params: 0, uses: vec![] }).collect();
     if nsub >= 2 && ch.pick_w(2, c(F_NAMES)) == 1 { subs[nsub - 1].name = subs[0].name.clone(); }
     for s in subs.iter_mut() { s.params = ch.pick_w(4, c(F_SCRIPTS)) as u8; }
     let mut tls = vec![];
     for t in 0..ntl {
-        let (index, pat) = match ch.pick_w(4, c(F_IDS)) {
+        let (index, pat) = match ch.pick_w(4, c(F_X1)) {
             0 => (None, "implicit"),
             1 => (Some(t as i32), "explicit-own-position"),
             2 => (Some((ntl - 1 - t) as i32), "explicit-reversed"),
@@ -700,7 +722,7 @@ fn gen_ecl(ch: &mut Chooser, game: Game, prof: &[u32]) -> EclLayout {
         };
         let mut targets: Vec<String> = (0..nsub).map(|k| subs[(t + k) % nsub].name.clone()).collect();
         targets.push("nosuch".into());
-        let target = targets[ch.pick_w(targets.len(), c(F_USES))].clone();
+        let target = targets[ch.pick_w(targets.len(), c(F_X2))].clone();
         tls.push(EclTlL { name: format!("tl{t}"), index, pat, marker: 0x30 + t as u32, target });
     }
     let tl_pos = ch.pick_w(nsub + 1, c(F_SCRIPTS));
@@ -1044,37 +1066,54 @@ fn job_from_json(v: &Value) -> Option<Job> {
 // =============================================================================================
 // plans
 
-struct Plan { label: &'static str, fam: &'static str, games: Vec<&'static str>, prof: Vec<u32>, bound: u32, max_cases: u64 }
+struct Plan { label: &'static str, fam: &'static str, games: Vec<(&'static str, u32)>, prof: Vec<u32>, max_cases: u64 }
 
 fn plans(thorough: bool) -> Vec<Plan> {
     let t = thorough;
     // ANM profile: [free mask, max entries, max sprites/entry, max sprites total, max scripts]
     // MSG profile: [free mask, max scripts, max table index count];  ECL: [free, max subs, max timelines];  STD: [free, max objects, max instances]
-    let anm_all = vec!["th12", "th06", "th07", "th08", "th10", "th17"];
-    vec![
-        // every id pattern for every sprite (full product) over every shape; everything else default
-        Plan { label: "anm sprite ids: shape x id pattern (full product)", fam: "anm", games: if t { anm_all.clone() } else { vec!["th12", "th06", "th08"] },
-               prof: vec![F_SHAPE | F_IDS, 3, 3, if t { 4 } else { 3 }, 2], bound: 0, max_cases: 3_000_000 },
-        // shared names: every name assignment x id patterns (2 deviations elsewhere)
-        Plan { label: "anm shared/clashing names (full product) + 2 deviations", fam: "anm", games: if t { anm_all.clone() } else { vec!["th12", "th07"] },
-               prof: vec![F_NAMES, 3, 3, if t { 4 } else { 3 }, 3], bound: if t { 3 } else { 2 }, max_cases: 3_000_000 },
-        // scripts and use sites: full product of script names/numbers and use kind/target/host
-        Plan { label: "anm scripts x use sites (full product) + 1 deviation", fam: "anm", games: if t { anm_all.clone() } else { vec!["th12", "th10", "th17", "th06"] },
-               prof: vec![F_SCRIPTS | F_USES, 3, 2, 3, 3], bound: if t { 2 } else { 1 }, max_cases: 3_000_000 },
-        // everything costed: deviation-bounded over the whole generator
-        Plan { label: "anm all choice points, deviation-bounded", fam: "anm", games: if t { anm_all.clone() } else { vec!["th12"] },
-               prof: vec![0, 3, 3, 4, 3], bound: if t { 4 } else { 3 }, max_cases: 3_000_000 },
-        Plan { label: "msg table contents x default (full product) + deviations", fam: "msg", games: if t { vec!["th06", "th08", "th09", "th12", "th17"] } else { vec!["th06", "th09", "th12"] },
-               prof: vec![F_IDS | F_NAMES, if t { 4 } else { 3 }, if t { 5 } else { 4 }], bound: if t { 2 } else { 1 }, max_cases: 3_000_000 },
-        Plan { label: "msg shape/order/table_len (full product) + deviations", fam: "msg", games: vec!["th06", "th09"],
-               prof: vec![F_SHAPE | F_SCRIPTS | F_USES, 4, 5], bound: if t { 3 } else { 2 }, max_cases: 3_000_000 },
-        Plan { label: "ecl subs x timelines x uses (full product of shape/index/use) + deviations", fam: "ecl", games: vec!["th06", "th07", "th08"],
-               prof: vec![F_SHAPE | F_IDS | F_USES, if t { 4 } else { 3 }, 3], bound: if t { 2 } else { 1 }, max_cases: 3_000_000 },
-        Plan { label: "ecl all choice points, deviation-bounded", fam: "ecl", games: vec!["th06", "th07", "th08"],
-               prof: vec![0, 4, 3], bound: if t { 4 } else { 3 }, max_cases: 3_000_000 },
-        Plan { label: "std objects x name order x instances (full product)", fam: "std", games: if t { vec!["th06", "th08", "th095", "th12"] } else { vec!["th06", "th12"] },
-               prof: vec![F_SHAPE | F_NAMES | F_USES, 4, if t { 4 } else { 3 }], bound: 0, max_cases: 3_000_000 },
-    ]
+    // games: (game, deviation bound for the non-free choice points)
+    let g = |list: &[(&'static str, u32, u32)]| -> Vec<(&'static str, u32)> { list.iter().map(|&(n, q, th)| (n, if t { th } else { q })).collect() };
+    const SKIP: u32 = u32::MAX; // game not run in this tier
+    let plans = vec![
+        Plan { label: "anm sprite ids: sprite shape x id pattern per sprite (full product)", fam: "anm",
+               games: g(&[("th12", 0, 1), ("th06", 0, 0), ("th08", 0, 0), ("th07", SKIP, 0), ("th10", SKIP, 0), ("th17", SKIP, 0)]),
+               prof: vec![F_SHAPE | F_IDS, 3, 3, if t { 4 } else { 3 }, 2], max_cases: 4_000_000 },
+        Plan { label: "anm shared/clashing sprite names (full product) + deviations", fam: "anm",
+               games: g(&[("th12", 2, 4), ("th07", 2, 3), ("th06", SKIP, 3), ("th17", SKIP, 3)]),
+               prof: vec![F_NAMES, 3, 3, if t { 4 } else { 3 }, 3], max_cases: 4_000_000 },
+        Plan { label: "anm script shape x use host/kind/target (full product) + deviations", fam: "anm",
+               games: g(&[("th12", 1, 2), ("th10", 0, 1), ("th17", 0, 1), ("th06", 0, 1), ("th07", SKIP, 1), ("th08", SKIP, 1)]),
+               prof: vec![F_USES | F_X1, 3, 2, 3, if t { 3 } else { 2 }], max_cases: 4_000_000 },
+        Plan { label: "anm script shape x script names x explicit numbers (full product) + deviations", fam: "anm",
+               games: g(&[("th12", 1, 2), ("th06", 0, 1), ("th17", SKIP, 1)]),
+               prof: vec![F_SCRIPTS | F_X2 | F_X1, 3, 2, 3, 3], max_cases: 4_000_000 },
+        Plan { label: "anm all choice points, deviation-bounded", fam: "anm",
+               games: g(&[("th12", 3, 4), ("th06", SKIP, 3), ("th07", SKIP, 3), ("th08", SKIP, 3), ("th10", SKIP, 3), ("th17", SKIP, 3)]),
+               prof: vec![0, 3, 3, 4, 3], max_cases: 4_000_000 },
+        Plan { label: "msg table contents x default (full product) + deviations", fam: "msg",
+               games: g(&[("th06", 1, 1), ("th09", 1, 1), ("th12", 0, 1), ("th08", SKIP, 0), ("th17", SKIP, 0)]),
+               prof: vec![F_IDS | F_NAMES, if t { 4 } else { 3 }, if t { 5 } else { 4 }], max_cases: 4_000_000 },
+        Plan { label: "msg script count x file order x meta position (full product) + deviations", fam: "msg",
+               games: g(&[("th06", 1, 2), ("th09", 1, 2), ("th12", 0, 1)]),
+               prof: vec![F_SHAPE | F_SCRIPTS, 4, 5], max_cases: 4_000_000 },
+        Plan { label: "msg table_len x flags x source order x duplicate script (full product) + deviations", fam: "msg",
+               games: g(&[("th06", 2, 3), ("th09", 2, 3), ("th12", 1, 2)]),
+               prof: vec![F_X1 | F_X2, 4, 5], max_cases: 4_000_000 },
+        Plan { label: "ecl sub count x use host/kind/target (full product) + deviations", fam: "ecl",
+               games: g(&[("th06", 1, 2), ("th07", 1, 2), ("th08", 1, 2)]),
+               prof: vec![F_SHAPE | F_USES, if t { 4 } else { 3 }, 3], max_cases: 4_000_000 },
+        Plan { label: "ecl sub count x timeline count x index pattern x timeline target (full product)", fam: "ecl",
+               games: g(&[("th06", 1, 2), ("th07", 0, 1), ("th08", 0, 1)]),
+               prof: vec![F_SHAPE | F_X1 | F_X2, 3, 3], max_cases: 4_000_000 },
+        Plan { label: "ecl all choice points, deviation-bounded", fam: "ecl",
+               games: g(&[("th06", 3, 4), ("th07", 3, 4), ("th08", 3, 4)]),
+               prof: vec![0, 4, 3], max_cases: 4_000_000 },
+        Plan { label: "std objects x name order x instances (full product)", fam: "std",
+               games: g(&[("th06", 0, 0), ("th12", 0, 0), ("th08", SKIP, 0), ("th095", SKIP, 0)]),
+               prof: vec![F_SHAPE | F_NAMES | F_USES, 4, if t { 4 } else { 3 }], max_cases: 4_000_000 },
+    ];
+    plans.into_iter().map(|mut p| { p.games.retain(|g| g.1 != SKIP); p }).collect()
 }
 
 // =============================================================================================
@@ -1095,7 +1134,7 @@ pub fn run(tier: &str) -> Report {
     let mut plan_stats = vec![];
     let mut any_capped = false;
     for plan in plans(thorough) {
-        for gname in &plan.games {
+        for &(gname, bound) in &plan.games {
             let game = gm(gname);
             let before = jobs.len();
             let fam = plan.fam;
@@ -1103,12 +1142,12 @@ pub fn run(tier: &str) -> Report {
             let gen = |ch: &mut Chooser| { let job = Job { fam, game, prof: prof.clone(), choices: vec![] }; let _ = job; match fam {
                 "anm" => { gen_anm(ch, game, &prof); }, "msg" => { gen_msg(ch, game, &prof); }, "ecl" => { gen_ecl(ch, game, &prof); }, _ => { gen_std(ch, game, &prof); } } };
             let mut local: Vec<Job> = vec![];
-            let st = explore_dfs(plan.bound, plan.max_cases, &gen, &mut |choices, _| {
+            let st = explore_dfs(bound, plan.max_cases, &gen, &mut |choices, _| {
                 local.push(Job { fam, game, prof: plan.prof.clone(), choices: choices.to_vec() });
             });
             if st.capped { any_capped = true; }
             jobs.extend(local);
-            plan_stats.push(json!({"plan": plan.label, "game": gname, "deviation_bound": plan.bound, "generated": jobs.len() - before, "capped": st.capped}));
+            plan_stats.push(json!({"plan": plan.label, "game": gname, "deviation_bound": bound, "generated": jobs.len() - before, "capped": st.capped}));
         }
     }
     rep.transitions = jobs.len() as u64;
